@@ -237,7 +237,9 @@ CacheStore == /\ IsEvent("cache.store")
                            \cup (IF ev.tok \in DOMAIN upsent /\ ev.expire - ev.stored <= Max2(LifetimeMs(upsent[ev.tok], cfg.maxttl), 1000) + 5
                                  THEN {} ELSE IF ev.tok \in DOMAIN upsent THEN {"Inv_C08_Lifetime"} ELSE {})
                            \cup (IF ev.neg = (ev.rcode # 0) THEN {} ELSE {"Inv_C08_NoDisplace"})
-                           \cup (IF ev.tok \in DOMAIN upsent /\ ~(upsent[ev.tok].name = ev.name /\ upsent[ev.tok].cls = ev.cls /\ upsent[ev.tok].typ = ev.typ)
+                           \* a stored answer was produced by an upstream for exactly this question
+                           \cup (IF ev.tok # 0 /\ ~(ev.tok \in DOMAIN upsent /\ upsent[ev.tok].name = ev.name
+                                                    /\ upsent[ev.tok].cls = ev.cls /\ upsent[ev.tok].typ = ev.typ)
                                  THEN {"Inv_C07_StoreOwnKey"} ELSE {}))
                  /\ stores' = With(stores, ev.key, (IF ev.key \in DOMAIN stores THEN stores[ev.key] ELSE <<>>) \o <<ev>>)
               /\ UNCHANGED <<cfg, q, answered, upsent, upq, pf, fwd, seen, outst>>
